@@ -527,6 +527,9 @@ N("C12/fen/board-field-texts", ["C12", "C08"], "board::verif_kani_f::n12_board_f
   "for every record whose board field has 1..10 ranks, all '8' except two positions taking every pair of 18 rank tokens (too long, too short, bad characters, empty, '.', nine squares), with three different tails: parsing never panics, and accepted text is stable under parse-format-parse",
   bounded="board fields built from the token grammar listed in kani/board_harness_f.rs (about 50 000 texts)", timeout=1800)
 
+N("C10/text/from-str-native", ["C10", "C12", "C02"], "moves::uci::verif_kani_b::n10_uci_from_str_total_native", ["<uci::Move as FromStr>::from_str", "<uci::Move as Display>::fmt"],
+  "for every UTF-8 string of <= 3 bytes and every string of 4 or 5 characters over the UCI alphabet plus two multi-byte characters (contains the 20 481 canonical texts and every input of defect D2): parsing never panics; an accepted text prints back as itself and parses back to the same value; every canonical text (square square [nbrq], 0000) is accepted",
+  bounded="all UTF-8 strings of <= 3 bytes; strings of 4-5 characters over a 27-character alphabet (about 31 million texts)", timeout=900)
 N("C13/chain/equality-native", ["C13"], "chain::verif_kani_d::n13_chain_equality_family", ["<BaseMoveChain as PartialEq>::eq"],
   "for every pair of a family of ~250 chains (nine start positions, every prefix of their games, stored outcomes; including pairs that reach the SAME live board from DIFFERENT start positions): == holds exactly when start position, move list and stored outcome are equal",
   bounded="a fixed family of chains (the symbolic form C13/chain/equality is thorough)", timeout=900)
